@@ -41,9 +41,12 @@ PropTypes = Union[vText]
 TzifyFunction = Callable[[datetime], datetime]
 
 
-# TODO(jelmer): Populate this further based on
-# https://tools.ietf.org/html/rfc5545#3.3.11
-_INVALID_CONTROL_CHARACTERS = ["\x0c", "\x01"]
+# CONTROL characters that https://tools.ietf.org/html/rfc5545#section-3.3.11
+# does not allow in TEXT (a line feed gets there as the escape sequence "\n").
+# They can not be carried in the XML of a report either.
+_INVALID_CONTROL_CHARACTERS = [
+    chr(c) for c in range(0x20) if c not in (0x09, 0x0A, 0x0D)
+] + ["\x7f"]
 
 
 class MissingProperty(Exception):
